@@ -427,6 +427,10 @@ func (handle *writeTxnHandle) Commit() ReadTxn {
 		table.meta.released()
 		table.locked = false
 	}
+	if len(currentRoot) > len(root) {
+		// Tables registered after WriteTxn() exist only in the current root.
+		root = append(root, currentRoot[len(root):]...)
+	}
 	txn.tableEntries = nil
 
 	// Commit the transaction to build the new root tree and then
